@@ -1,6 +1,8 @@
 ---------------------------- MODULE PacketsTrace ----------------------------
 (***************************************************************************)
 (* Trace specification for C15.  Events (f = packet record, b = bytes):    *)
+(*   <<"new", g, f>>            a packet constructed from the arguments g  *)
+(*                              has the fields f                           *)
 (*   <<"sdp_enc", f, b>>        SDPPacket(f).bytestring = b                *)
 (*   <<"sdp_dec", b, f>>        SDPPacket.from_bytestring(b) has fields f  *)
 (*   <<"scp_enc", f, b>>        SCPPacket(f).bytestring = b                *)
@@ -22,7 +24,8 @@ ScpFields == SdpFields \cup {"cmd", "seq", "args"}
 SameOn(F, a, b) == { f \in F : a[f] # b[f] } = {}
 
 Checks(e) ==
-  CASE e[1] = "sdp_enc" -> [WireLayout |-> e[3] = EncodeSDP(e[2])]
+  CASE e[1] = "new" -> [HoldsWhatWasGiven |-> e[3] = e[2]]
+    [] e[1] = "sdp_enc" -> [WireLayout |-> e[3] = EncodeSDP(e[2])]
     [] e[1] = "scp_enc" -> [WireLayout |-> e[3] = EncodeSCP(e[2])]
     [] e[1] = "sdp_dec" -> [DecodeFields |-> SameOn(SdpFields, e[3], DecodeSDP(e[2]))]
     [] e[1] = "scp_dec" ->
